@@ -307,6 +307,8 @@ func (e *Exec) exec(c *Cmd, sl *slots, gsuffix string) (string, bool) {
 		return "same=" + b01(bytes.Equal(fb, e.bufs[c.Pos[1]])), true
 	case "footer":
 		return e.doFooter(c), true
+	case "dumpfile":
+		return e.doDumpFile(c), true
 	case "open":
 		fp := e.path(c.Pos[1])
 		sg, err := (&zap.ZapPlugin{}).Open(fp)
